@@ -13,6 +13,7 @@
 #include <iostream>
 #include <memory>
 #include <sstream>
+#include <stdexcept>
 #include <string>
 #include <vector>
 #include "vh.hpp"
@@ -59,6 +60,7 @@ struct ScriptedModel : public RansacModel
     if (refines) {++calls_after_refine;}
     if (s != sigma) {sigma_ok = false;}
     size_t i = draws++;
+    if (draws > 200000) {throw std::runtime_error("runaway");}   // a broken iteration bound must not hang the run
     return i < script.size() ? script[i].first : false;
   }
   size_t countInliers(const double & s) override
@@ -85,7 +87,12 @@ static void run_est(const std::vector<std::string> & t)
     m.script.emplace_back(t[i].substr(0, c) == "1", ru(t[i].substr(c + 1)));
   }
   Ransac r(&m, m.sigma);
-  bool ok = r.estimateModel();
+  bool ok = false;
+  try {
+    ok = r.estimateModel();
+  } catch (const std::runtime_error &) {
+    std::cout << "runaway ";
+  }
   std::cout << (ok ? 1 : 0) << " " << m.draws << " " << m.counts << " " << m.refines << " "
             << m.calls_after_refine << " " << (m.sigma_ok ? 1 : 0) << "\n";
 }
